@@ -89,7 +89,9 @@ fn drop_step_raw() {
     kani::cover!(addr != 0 && via_build_raw);
 }
 
-/// two owned regions built through the public constructor, at symbolic host addresses with symbolic sizes
+/// two owned regions built through the public constructor, symbolic host addresses and sizes.  Maps are assembled with
+/// `from_arc_regions`: `from_regions` (drain + map + collect) followed by real drops runs CBMC out of memory (> 25 GB);
+/// its result semantics are decided in c10.rs.
 macro_rules! two_regions {
     ($r0:ident, $r1:ident) => {
         cffi::link();
@@ -122,7 +124,7 @@ macro_rules! two_regions {
 #[kani::proof]
 fn history_clone() {
     two_regions!(r0, r1);
-    let m0 = match GuestMemoryMmap::from_regions(vec![r0, r1]) {
+    let m0 = match GuestMemoryMmap::from_arc_regions(vec![Arc::new(r0), Arc::new(r1)]) {
         Ok(m) => m,
         Err(e) => {
             leak(e);
@@ -150,7 +152,7 @@ fn history_clone() {
 /// build -> insert_region -> drop old/new in either order
 fn history_insert_body<const OLD_FIRST: bool>() {
     two_regions!(r0, r1);
-    let m0 = match GuestMemoryMmap::from_regions(vec![r0]) {
+    let m0 = match GuestMemoryMmap::from_arc_regions(vec![Arc::new(r0)]) {
         Ok(m) => m,
         Err(e) => {
             leak(e);
@@ -193,83 +195,68 @@ fn history_insert_new_first() {
     history_insert_body::<false>()
 }
 
-/// build -> remove_region -> (old map, new map, removed handle) dropped in every order
-fn history_remove_body<const ORDER: u8>() {
-    two_regions!(r0, r1);
-    let m0 = match GuestMemoryMmap::from_regions(vec![r0, r1]) {
-        Ok(m) => m,
-        Err(e) => {
-            leak(e);
-            assert!(false);
-            return;
-        }
-    };
-    let s1 = match m0.find_region(GuestAddress(0x10000)) {
-        Some(r) => r.len(),
-        None => {
-            assert!(false);
-            return;
-        }
-    };
-    let (m1, h) = match m0.remove_region(GuestAddress(0x10000), s1) {
-        Ok(x) => x,
-        Err(e) => {
-            leak(e);
-            assert!(false);
-            return;
-        }
-    };
-    assert!(ghost() == (2, 0, 0, 2));
-    // reachability model: slot 0 (r0) <- m0, m1 ; slot 1 (r1) <- m0, h
-    let (mut a_m0, mut a_m1, mut a_h) = (true, true, true);
-    let mut m0 = Some(m0);
-    let mut m1 = Some(m1);
-    let mut h = Some(h);
-    // ORDER enumerates the 6 permutations of (m0, m1, h)
-    let perm: [u8; 3] = match ORDER {
-        0 => [0, 1, 2],
-        1 => [0, 2, 1],
-        2 => [1, 0, 2],
-        3 => [1, 2, 0],
-        4 => [2, 0, 1],
-        _ => [2, 1, 0],
-    };
-    let mut k = 0;
-    while k < 3 {
-        match perm[k] {
-            0 => {
-                drop(m0.take());
-                a_m0 = false;
-            }
-            1 => {
-                drop(m1.take());
-                a_m1 = false;
-            }
-            _ => {
-                drop(h.take());
-                a_h = false;
-            }
-        }
-        assert!(slot_live(0) == (a_m0 || a_m1));
-        assert!(slot_live(1) == (a_m0 || a_h));
-        let (_, _, bad, _) = ghost();
-        assert!(bad == 0);
-        k += 1;
-    }
-    assert!(ghost() == (2, 2, 0, 0));
-}
-macro_rules! rem {
-    ($name:ident, $o:expr) => {
+/// build -> remove_region -> (old map, new map, removed handle) dropped in every order (straight-line code per order:
+/// no Option wrappers around the maps, which blow up CBMC's memory)
+macro_rules! history_remove {
+    ($name:ident, $d1:ident, $d2:ident, $d3:ident) => {
         #[kani::proof]
         #[kani::stub(alloc::vec::Vec::remove, vec_remove_stub)]
         fn $name() {
-            history_remove_body::<{ $o }>()
+            two_regions!(r0, r1);
+            let s1 = r1.len();
+            let m0 = match GuestMemoryMmap::from_arc_regions(vec![Arc::new(r0), Arc::new(r1)]) {
+                Ok(m) => m,
+                Err(e) => {
+                    leak(e);
+                    assert!(false);
+                    return;
+                }
+            };
+            let (m1, h) = match m0.remove_region(GuestAddress(0x10000), s1) {
+                Ok(x) => x,
+                Err(e) => {
+                    leak(e);
+                    assert!(false);
+                    return;
+                }
+            };
+            assert!(ghost() == (2, 0, 0, 2));
+            // reachability model: slot 0 (r0) <- m0, m1 ; slot 1 (r1) <- m0, h
+            let (mut m0_alive, mut m1_alive, mut h_alive) = (true, true, true);
+            macro_rules! kill {
+                (m0) => {
+                    drop(m0);
+                    m0_alive = false;
+                };
+                (m1) => {
+                    drop(m1);
+                    m1_alive = false;
+                };
+                (h) => {
+                    drop(h);
+                    h_alive = false;
+                };
+            }
+            macro_rules! check {
+                () => {
+                    assert!(slot_live(0) == (m0_alive || m1_alive));
+                    assert!(slot_live(1) == (m0_alive || h_alive));
+                    assert!(ghost().2 == 0);
+                };
+            }
+            kill!($d1);
+            check!();
+            kill!($d2);
+            check!();
+            kill!($d3);
+            check!();
+            assert!(ghost() == (2, 2, 0, 0));
         }
     };
 }
-rem!(history_remove_order0, 0);
-rem!(history_remove_order1, 1);
-rem!(history_remove_order2, 2);
-rem!(history_remove_order3, 3);
-rem!(history_remove_order4, 4);
-rem!(history_remove_order5, 5);
+history_remove!(history_remove_m0_m1_h, m0, m1, h);
+history_remove!(history_remove_m0_h_m1, m0, h, m1);
+history_remove!(history_remove_m1_m0_h, m1, m0, h);
+history_remove!(history_remove_m1_h_m0, m1, h, m0);
+history_remove!(history_remove_h_m0_m1, h, m0, m1);
+history_remove!(history_remove_h_m1_m0, h, m1, m0);
